@@ -6,12 +6,14 @@ decoded by the REAL decoder (tools/ent_block.py, harness/zvh_dec.c `dec`).
 
 One op:
   `cframe <windowLog> <checksum 0|1> <blocks spec|-> <hex x|->`
-     -> `<hex of serializeFrame2 a blocks x> rt=ok fse=<n> spreadOK=<b> spreadEncEqDec=<b>`
+     -> `<hex of serializeFrame2 a blocks x> rt=ok fse=<n> spreadOK=<b> spreadEncEqDec=<b> lit=<letters|->`
                                                                rt=ok when the decoder model (`Frame.decompressAll`, capacity x.size) gives x back,
         `rt=FAIL:DIFF` / `rt=FAIL:<error class>`                 otherwise;   `bad-op` on a malformed line
         fse = number of FSE-described tables (`f...` below) in the frame; spreadOK = `FSE.spreadOK (FSE.spreadEnc norm L) norm L` holds for
         every one of them, spreadEncEqDec = `FSE.spreadEnc norm L == FSE.spread norm L` for every one of them (the side conditions of the
-        round-trip theorems; both `true` when fse=0)
+        round-trip theorems; both `true` when fse=0); lit = per compressed block, in order, the type of the literals section the model
+        actually WROTE (its first byte & 3): `r` raw, `e` RLE, `h` Huffman with a direct tree description, `f` Huffman with an FSE-compressed
+        tree description (first byte of the description < 128), `t` treeless; `-` = no compressed block
   HArgs = ⟨windowLog, x.size, contentSizeFlag = true, 0, false, checksum != 0, false⟩ (as `args` of Driver/Serialize.lean with csf = 1).
 
 `<blocks spec>` = blocks separated by `;` (`-` = no block at all).  Separators, from the outside in: ` ` (op fields), `;` (blocks),
@@ -24,7 +26,18 @@ One op:
                    with lengths ceil(log2 n) / ceil(log2 n) - 1), turns them into weights (tableLog + 1 - length) and hands
                    `LitChoice.huffman` to the model.  It falls back to raw literals exactly where ZSTD_compressLiterals would not keep a
                    Huffman output either: fewer than 2 distinct literals, a literal > 128 (the direct 4-bit tree description holds at
-                   most 128 weights; the FSE-compressed description is not produced by the model), or no gain over the raw section.
+                   most 128 weights; for the FSE-compressed description see `f`), or no gain over the raw section.
+                   `f` as `h`, but the tree description is the one the whole of HUF_writeCTable_wksp writes: the weights FSE-compressed
+                   (HUF_compressWeights) when that is smaller than the direct form, so that symbols above 128 can be described.  The
+                   normalised counts of the weight values (FSE_normalizeCount: a heuristic, not modelled) are made by the driver
+                   (`normWeights`: 1 + a proportional share, the remainder to the most frequent value; tableLog 5 below 64 weights, else
+                   6) and handed to the model with `LitChoice.huffmanFse`; the driver falls back to `h` when these counts fail a side
+                   condition of the round-trip theorem (`weightsFseOK`) and to raw literals when there is no gain.
+                   `t` TREELESS literals, the way HUF_compress_internal works with `HUF_flags_preferRepeat`: if an earlier compressed
+                   block of the frame wrote a Huffman table (`BlockEnc.nextHuf`, threaded like the repeat-offset history), that table has
+                   a code for every literal of this block (HUF_validateCTable) and the section gets smaller than the raw one, the
+                   driver hands `LitChoice.treeless` to the model (header type set_repeat, no tree description); otherwise it does
+                   what `f` does (new table, or raw).  What was written can be read off the `lit=` field of the answer.
        tablemodes  for LL, OF, ML, either three letters (`bbb`, `rbp`, ...) or three descriptors separated by `/` (`f6,4,3,-1,0,56/b/p`):
                    `b` predefined table (set_basic) | `r` RLE table (set_rle) whose symbol is the code of the FIRST sequence of
                    the block after `storeAll` under the running repeat-offset history (`(codesOf s).ll / .of / .ml`) |
@@ -100,6 +113,65 @@ def hufChoice (lits : ByteArray) : LitChoice :=
     let c := LitChoice.huffman weights.dropLast (weights.getLastD 0) log
     if HufEnc.weightsOK weights.toArray log && (litSection c lits).size < (litSection .raw lits).size then c else .raw
 
+/-- normalised counts for the weight values of `ws` at table log `L`: every value that occurs gets 1 + a proportional share of the rest,
+the remainder goes to the most frequent one -/
+def normWeights (ws : List Nat) (L : Nat) : Array Int :=
+  let maxW := ws.foldl max 0
+  let hist := (List.range (maxW + 1)).map (fun w => ws.count w)
+  let present := (hist.filter (· > 0)).length
+  let size := 1 <<< L
+  let vals := hist.map (fun c => if c = 0 then 0 else 1 + (size - present) * c / ws.length)
+  let rem := size - vals.foldl (· + ·) 0
+  let top := hist.foldl max 0
+  let idx := (hist.findIdx? (· == top)).getD 0
+  ((vals.toArray.modify idx (· + rem)).map (fun (v : Nat) => (v : Int)))
+
+/-- the side conditions of `WeightsRT.WeightsFseOK`, evaluated -/
+def weightsFseOK (norm : Array Int) (L : Nat) (ws : List Nat) : Bool :=
+  decide (1 ≤ L) && (List.range norm.size).all (fun s => decide (-1 ≤ norm[s]!)) &&
+    ((List.range norm.size).map (FSE.cnt norm)).foldl (· + ·) 0 == 1 <<< L &&
+    decide (5 ≤ L) && decide (L ≤ 6) && norm[norm.size - 1]! != 0 && decide (norm.size ≤ 13) &&
+    FSE.spreadOK (FSE.spreadEnc norm L) norm L && FSE.spreadEnc norm L == FSE.spread norm L &&
+    ws.all (fun w => decide (w < norm.size) && norm[w]! != 0) && (List.range norm.size).all (fun s => decide (FSE.cnt norm s < 1 <<< L))
+
+/-- the `f` literal mode: as `hufChoice`, with the tree description of the whole of HUF_writeCTable_wksp -/
+def hufChoiceFse (lits : ByteArray) : LitChoice :=
+  let counts : Array Nat := lits.foldl (fun c b => c.modify b.toNat (· + 1)) (Array.replicate 256 0)
+  let present := (List.range 256).filter (fun s => counts[s]! > 0)
+  match present.getLast? with
+  | none => .raw
+  | some maxSym =>
+    if present.length < 2 then .raw else
+    let counts := counts.extract 0 (maxSym + 1)
+    let d0 := huffmanDepths counts
+    let depths := if d0.foldl max 0 > 11 then balancedDepths counts else d0
+    let log := depths.foldl max 0
+    let weights := depths.toList.map (fun d => if d = 0 then 0 else log + 1 - d)
+    let ws := weights.dropLast
+    let L := if ws.length < 64 then 5 else 6
+    let norm := normWeights ws L
+    let c := LitChoice.huffmanFse ws (weights.getLastD 0) log norm L
+    if !(weightsFseOK norm L ws) then hufChoice lits
+    else if HufEnc.weightsOK weights.toArray log && (litSection c lits).size < (litSection .raw lits).size then c else .raw
+
+/-- the `t` literal mode: the table of an earlier block if there is one, it covers the literals and gains something; `h` otherwise -/
+def treelessChoice (hp : Option HufTab) (lits : ByteArray) : LitChoice :=
+  match hp with
+  | some (w, _) =>
+    if lits.size > 0 && (symsOf lits).all (fun s => w.getD s 0 > 0) &&
+        (litSection .treeless lits hp).size < (litSection .raw lits).size then .treeless
+    else hufChoiceFse lits
+  | none => hufChoiceFse lits
+
+/-- the type of the literals section the model writes for the decision: first byte & 3 -/
+def litLetter (c : LitChoice) (lits : ByteArray) (hp : Option HufTab) : Char :=
+  let sec := litSection c lits hp
+  match sec.u8 0 &&& 3 with
+  | 0 => 'r'
+  | 1 => 'e'
+  | 2 => if sec.u8 (LitEnc.lhSize lits.size) < 128 then 'f' else 'h'
+  | _ => 't'
+
 /-! ### the blocks spec -/
 
 def parseSeq (s : String) : Option RawSeq :=
@@ -144,7 +216,7 @@ def splitModes (s : String) : Option (String × String × String) :=
     | [a, b, c] => some (String.singleton a, String.singleton b, String.singleton c)
     | _ => none
 
-def parseCompressed (x : ByteArray) (pos : Nat) (rep : Rep.R) (tok : String) : Option BlockChoice2 :=
+def parseCompressed (x : ByteArray) (pos : Nat) (rep : Rep.R) (hp : Option HufTab) (tok : String) : Option BlockChoice2 :=
   let fs := tok.splitOn ":"
   if fs.length < 4 then none else
   let head := fs.head!
@@ -159,6 +231,8 @@ def parseCompressed (x : ByteArray) (pos : Nat) (rep : Rep.R) (tok : String) : O
       if head == "cr" then some .raw
       else if head == "ce" then (if lits.size = 0 then none else some .rle)
       else if head == "ch" then some (hufChoice lits)
+      else if head == "cf" then some (hufChoiceFse lits)
+      else if head == "ct" then some (treelessChoice hp lits)
       else none
     match lit?, tableChoice mLL first.ll, tableChoice mOF first.of, tableChoice mML first.ml with
     | some c, some tl, some to, some tm => some (.compressed c ⟨tl, to, tm⟩ lits raws)
@@ -166,23 +240,33 @@ def parseCompressed (x : ByteArray) (pos : Nat) (rep : Rep.R) (tok : String) : O
   | _, _, _ => none
 
 def parseBlocks (x : ByteArray) (toks : List String) : Option (List BlockChoice2) :=
-  let rec go (toks : List String) (pos : Nat) (rep : Rep.R) (acc : List BlockChoice2) : Option (List BlockChoice2) :=
+  let rec go (toks : List String) (pos : Nat) (rep : Rep.R) (hp : Option HufTab) (acc : List BlockChoice2) : Option (List BlockChoice2) :=
     match toks with
     | [] => some acc.reverse
     | t :: rest =>
       if t.startsWith "c" then
-        match parseCompressed x pos rep t with
+        match parseCompressed x pos rep hp t with
         | some (.compressed c tb lits raws) =>
-          go rest (pos + parseLen lits raws) (storeAll rep raws).2 (.compressed c tb lits raws :: acc)
+          go rest (pos + parseLen lits raws) (storeAll rep raws).2 (nextHuf hp c lits) (.compressed c tb lits raws :: acc)
         | _ => none
       else
         match (t.drop 1).toString.toNat? with
         | none => none
         | some n =>
-          if t.startsWith "e" then go rest (pos + n) rep (.rle (UInt8.ofNat (x.u8 pos)) n :: acc)
-          else if t.startsWith "r" then go rest (pos + n) rep (.raw n :: acc)
+          if t.startsWith "e" then go rest (pos + n) rep hp (.rle (UInt8.ofNat (x.u8 pos)) n :: acc)
+          else if t.startsWith "r" then go rest (pos + n) rep hp (.raw n :: acc)
           else none
-  go toks 0 repStart []
+  go toks 0 repStart none []
+
+/-- per compressed block the type of the literals section written, along the Huffman table `serializeBlocks2` threads -/
+def litReport (bs : List BlockChoice2) : String :=
+  let rec go (bs : List BlockChoice2) (hp : Option HufTab) (acc : List Char) : List Char :=
+    match bs with
+    | [] => acc.reverse
+    | .compressed c _ lits _ :: rest => go rest (nextHuf hp c lits) (litLetter c lits hp :: acc)
+    | _ :: rest => go rest hp acc
+  let l := go bs none []
+  " lit=" ++ (if l.isEmpty then "-" else String.ofList l)
 
 /-- the FSE-described tables of a frame, as (normalised counts, table log) -/
 def fseTables (bs : List BlockChoice2) : List (Array Int × Nat) :=
@@ -215,7 +299,7 @@ def step (_ : Unit) (ws : List String) : Unit × String :=
     match wl.toNat?, ck.toNat?, parseBlocks x toks with
     | some wl, some ck, some bs =>
       let a : HeaderW.HArgs := ⟨wl, x.size, true, 0, false, ck != 0, false⟩
-      ((), report (serializeFrame2 a bs x) x ++ spreadReport bs)
+      ((), report (serializeFrame2 a bs x) x ++ spreadReport bs ++ litReport bs)
     | _, _, _ => ((), "bad-op")
   | _ => ((), "bad-op")
 
